@@ -177,3 +177,69 @@ Definition outs_justified (c : peer) (msgs : list wmsg) (outs : list wout) : boo
   forallb (caused c msgs) outs
   && (count_ready outs <=? count_initiates c msgs)%nat
   && (count_runs outs <=? 1)%nat.
+
+(* ---------------------------------------------------------------------------------------------- *)
+(* The retried attempt (tss/coordinator.go handleError -> retry -> start).  handleError starts
+   watchExecution with the EMPTY coordinator id ([wc] = None) although the attempt does have a
+   coordinator - the winner [c] of the bully election, which start() hands to waitForStart (or this
+   relayer itself, which then runs the ready loop).  [wait_step2] separates the two ids: [wc] is what
+   the watcher was told, [c] what waitForStart was told; [wait_step c] = [wait_step2 c c]. *)
+
+Definition wait_step2 (wc c : option peer) (st : wstate) (m : wmsg) : wstate * list wout :=
+  match st with
+  | Finished => (Finished, [])
+  | Waiting =>
+      match m with
+      | MInitiate f => if from_ok c f then (Waiting, [OReady f]) else (Waiting, [])
+      | MStart f ps =>
+          if from_ok c f then
+            match ps with Some l => (Running, [ORun l]) | None => (Finished, [OBadStart]) end
+          else (Waiting, [])
+      | MFail f => if fail_ok wc f then (Finished, [OAbort]) else (Waiting, [])
+      end
+  | Running =>
+      match m with
+      | MFail f => if fail_ok wc f then (Finished, [OAbort]) else (Running, [])
+      | _ => (Running, [])
+      end
+  end.
+
+Fixpoint run_wait2 (wc c : option peer) (st : wstate) (msgs : list wmsg) : wstate * list wout :=
+  match msgs with
+  | [] => (st, [])
+  | m :: r =>
+      let (st', o) := wait_step2 wc c st m in
+      let (st'', o') := run_wait2 wc c st' r in (st'', o ++ o')
+  end.
+
+(* a non-coordinator of the retried attempt, as coded *)
+Definition retry_wait (c2 : peer) (msgs : list wmsg) : wstate * list wout :=
+  run_wait2 None (Some c2) Waiting msgs.
+
+(* The coordinator of the retried attempt: the ready loop sees the ready messages, the watcher
+   (empty coordinator id) the fail messages.  Event = (true, p): ready message from p;
+   (false, p): fail message from p.  Result: announced subset (= Run params) and whether the
+   session was aborted by a fail message. *)
+Definition ev_readies (evs : list (bool * peer)) : list peer :=
+  flat_map (fun e : bool * peer => if fst e then [snd e] else []) evs.
+Definition ev_fails (evs : list (bool * peer)) : list peer :=
+  flat_map (fun e : bool * peer => if fst e then [] else [snd e]) evs.
+
+Section RetryCoord.
+  Variable key : peer -> N.
+  (* as coded the watcher was told the empty id: no fail message aborts the attempt *)
+  Definition retry_coord (holders : list peer) (t : Z) (excluded : list peer) (self : peer)
+             (evs : list (bool * peer)) : option (list peer) * bool :=
+    (snd (initiate key holders t excluded [self] (ev_readies evs)), existsb (fail_ok None) (ev_fails evs)).
+End RetryCoord.
+
+(* Specification of the coordinator's side of a retried attempt: an abort needs a fail message
+   authenticated as coming from the attempt's coordinator (this relayer itself), and an announced
+   subset is well-formed. *)
+Definition retry_coord_ok (holders : list peer) (t : Z) (excluded : list peer) (self : peer)
+           (evs : list (bool * peer)) (run : option (list peer)) (aborted : bool) : bool :=
+  (if aborted then memb self (ev_fails evs) else true)
+  && match run with
+     | Some sub => subset_ok holders t excluded self (ev_readies evs) sub
+     | None => true
+     end.
